@@ -20,6 +20,8 @@ func init() {
 			"R2 the window membership method, evaluated under the 13 weak orderings of (t, start, end) through its Before/After/Equal/Compare atoms, is true iff start ≤ t < end; " +
 			"R3 the predicate's window list, tracked symbolically (instants as start/end ± whole days), is {[start,end)} when end is after start and {[start,end+1d), [start−1d,end)} otherwise, for the 3 orderings of start/end; " +
 			"R4 both filters are applied before membership, read only the window start, and keep a window iff some weekday equals / some date's (year, month, day) equal the start's; an empty filter keeps everything; " +
+			"every window is decided (the window loop ranges over the whole list and no successful exit is reached from inside a pass: break / goto / return out of the window loop); " +
+			"a weekday kept in a field of the window may stand for the start's weekday if, for the 7 UTC weekdays of t × 3 orderings of start/end, every window reaching the filters holds the weekday of its own start (integer expressions over the weekday evaluated with Go's arithmetic, -1 % 7 == -1); " +
 			"R5 the any-window method is the disjunction of the membership of every window and the predicate returns exactly its result. " +
 			"Not decided: time package arithmetic, the HH:MM / YYYY-MM-DD regular expressions, which minute values are configured.",
 		Assumptions: []string{
@@ -37,14 +39,20 @@ type c14Model struct {
 	c     *kit.Ctx
 	m     *ruModel
 	ch    *c14Chain
-	tr    *types.Named // window struct: two time.Time fields
+	tr    *types.Named // window struct: exactly two time.Time fields (fields of other types may accompany them)
 	trF   [2]*types.Var
-	in    *kit.Func // (window).in(time.Time) bool
-	any   *kit.Func // (list).in(time.Time) bool
-	fw    *kit.Func // (list).filter([]time.Weekday)
-	fd    *kit.Func // (list).filter([]string)
-	list  types.Type
-	funcs []*kit.Func // schedule code: methods of schedule / window / list, constructor
+	trIdx [2]int // positions of trF in the struct (unkeyed literals)
+	// wdCache: the one field of type time.Weekday the window carries besides its
+	// two instants, nil if there is none.  R4 accepts it in place of
+	// <start>.Weekday() when every window reaching the filters holds the
+	// weekday of its own start in it (c14WeekdayCache).
+	wdCache *types.Var
+	in      *kit.Func // (window).in(time.Time) bool
+	any     *kit.Func // (list).in(time.Time) bool
+	fw      *kit.Func // (list).filter([]time.Weekday)
+	fd      *kit.Func // (list).filter([]string)
+	list    types.Type
+	funcs   []*kit.Func // schedule code: methods of schedule / window / list, constructor
 	// roles decided by R3 (index into trF), -1 unknown
 	startIdx, endIdx int
 }
@@ -78,7 +86,8 @@ func newC14Model(c *kit.Ctx) *c14Model {
 	ch := newC14Chain(c, m)
 	cm := &c14Model{c: c, m: m, ch: ch, startIdx: -1, endIdx: -1}
 	// window struct: the struct type with exactly two time.Time fields whose
-	// literals are built in the predicate
+	// literals are built in the predicate; it may carry further fields of other
+	// types (values derived from the instants and kept with the window)
 	info := ch.aft.Info()
 	// the predicate and the same-package helpers it calls (two levels)
 	bodies := []*kit.Func{ch.aft}
@@ -113,18 +122,35 @@ func newC14Model(c *kit.Ctx) *c14Model {
 			return true
 		}
 		st, ok := named.Underlying().(*types.Struct)
-		if !ok || st.NumFields() != 2 || !c14IsTime(st.Field(0).Type()) || !c14IsTime(st.Field(1).Type()) {
+		if !ok {
+			return true
+		}
+		var tf, wf []int
+		for i := 0; i < st.NumFields(); i++ {
+			switch ft := st.Field(i).Type(); {
+			case c14IsTime(ft):
+				tf = append(tf, i)
+			case kit.IsNamedType(ft, "time", "Weekday"):
+				wf = append(wf, i)
+			}
+		}
+		if len(tf) != 2 {
 			return true
 		}
 		if cm.tr != nil && cm.tr != named {
 			c.Fatalf("two window struct types built in %s", ch.aft.Name)
 		}
 		cm.tr = named
-		cm.trF = [2]*types.Var{st.Field(0), st.Field(1)}
+		cm.trF = [2]*types.Var{st.Field(tf[0]), st.Field(tf[1])}
+		cm.trIdx = [2]int{tf[0], tf[1]}
+		cm.wdCache = nil
+		if len(wf) == 1 {
+			cm.wdCache = st.Field(wf[0])
+		}
 		return true
 	})
 	if cm.tr == nil {
-		c.Fatalf("%s builds no struct of two time.Time fields (window type not found)", ch.aft.Name)
+		c.Fatalf("%s builds no struct with exactly two time.Time fields (window type not found)", ch.aft.Name)
 	}
 	for _, f := range c.P.Funcs(ruClientPkg) {
 		if f.Obj == nil || f.Body == nil {
@@ -170,7 +196,10 @@ func newC14Model(c *kit.Ctx) *c14Model {
 
 func runC14(c *kit.Ctx) {
 	cm := newC14Model(c)
-	r1 := c.Rule("R1", "calendar accessors only on UTC values; time.Date only with time.UTC", 5)
+	// floor: the two time.Date calls and the calendar reads of the predicate and
+	// of the date filter; the weekday filter has calendar reads of its own only
+	// when it does not compare a weekday kept with the window
+	r1 := c.Rule("R1", "calendar accessors only on UTC values; time.Date only with time.UTC", 4)
 	r2 := c.Rule("R2", "window membership is start <= t < end over the 13 weak orderings", 1)
 	r3 := c.Rule("R3", "wrap: one window if end is after start, else two shifted by a day", 1)
 	r4 := c.Rule("R4", "filters qualify the window start only and keep iff it matches", 5)
@@ -399,9 +428,9 @@ func (u *c14UTC) fieldUTC(fv *types.Var) (int, string) {
 		return c14Memo(m), u.fwhy[fv]
 	}
 	u.field[fv] = 1
-	idx := 0
+	idx := u.cm.trIdx[0]
 	if fv == u.cm.trF[1] {
-		idx = 1
+		idx = u.cm.trIdx[1]
 	}
 	res, why := c14Yes, ""
 	meet := func(r int, w string) {
